@@ -249,7 +249,8 @@ pub fn run(c: &Case, o: &mut Outcome) -> Result<(), Failure> {
     // ---- decode
     let dec_enc = if compressed || (c.disable && c.announce_when_disabled) { c.enc } else { None };
     let trailers = if c.role == Role::Server && c.trailers { Some(ok_trailers()) } else { None };
-    let body = script_body(&chunks, &c.body_pend, trailers);
+    let mut body = script_body(&chunks, &c.body_pend, trailers);
+    body.eos = c.seg % 2 == 1;
     let probe = body.probe.clone();
     let body = crate::infra::script::SegBody::new(body, c.seg);
     o.label_if(c.seg != 0 && chunks.iter().any(|ch| ch.len() * c.seg as usize / 256 > 0), "data_frame_in_two_buf_segments");
